@@ -7,6 +7,8 @@ trace through the extracted `step` (mode c06/c07) and evaluates the extracted
 monitor `PoolMon.check` on it (mode c06.sb / c07.sb).
 """
 import collections
+import glob
+import os
 import subprocess
 
 from vp import Stream, ENV
@@ -39,6 +41,17 @@ def _panic_subsets(script, rng, k):
     while len(out) < k:
         out.append(sorted(c for c in calls if rng.random() < 0.4))
     return out[:k]
+
+
+def corpus_groups(mode):
+    out = []
+    root = os.path.dirname(os.path.dirname(os.path.dirname(os.path.abspath(__file__))))
+    for f in sorted(glob.glob(os.path.join(root, "corpus", mode.upper() + "-*.txt"))):
+        for line in open(f):
+            line = line.strip()
+            if line and not line.startswith("#"):
+                out.append(line)
+    return out
 
 
 def groups(tier, rng):
@@ -109,7 +122,7 @@ def _nontrivial(case, model_line):
 
 
 def streams(mode, tier, rng):
-    gs = groups(tier, rng)
+    gs = corpus_groups(mode) + groups(tier, rng)
     st = Stream("trace-replay", mode, list(gs),
                 compare=lambda i, m: m == "accept" and "!" not in i and not i.startswith("crash"),
                 nontrivial=_nontrivial,
